@@ -18,23 +18,34 @@ SPEC = dict(
     lean_modules=["Ecal.Props.C05"],
     shards=12,
     rule=("cases = programs over the names {a,b,c,f,g,o} + probe expressions evaluated afterwards in the same global scope: "
-          "corpus (numeric map key written through m[1] := v, fix 5e0a7a5); exhaustive scope shape {top, if, if-if, loop entered twice, "
-          "loop-if, try/finally, except, function called twice, parameter, block in function, named closure, returned anonymous closure, "
-          "called from another function} x 13 assignment forms (:=, let, list destructuring, element write, loop variable, func "
+          "corpus (numeric map key written through m[1] := v, fix 5e0a7a5; review corpus: one-target destructuring [a] := x, cyclic / "
+          "diamond / 3-level super graphs, number keys at the edge of int64); exhaustive scope shape {top, if, if-if, loop entered twice, "
+          "loop-if, try/finally, except, otherwise, function called twice, parameter, block in function, named closure, returned anonymous closure, "
+          "called from another function; + the child scope of an interpolating string literal} x 13 assignment forms (:=, let, list destructuring, element write, loop variable, func "
           "declaration, except-as, shadowing block) x 5 places of definition; parameter sets x defaults x argument counts 0..n+1 x "
           "call context; directed closures / recursion / by-value vs by-reference / argument programs; exhaustive container kind (13) x "
           "key (19 bracket keys incl. 1 vs \"1\", negative, out of range, keys containing '.', variables + 30 nested dot/bracket paths) x "
           "read | write-then-read; pairs (thorough: triples) of len/add/del/concat operations with aliases; builtin argument checks; "
           "object templates (single / multiple inheritance, init, super); exhaustive outer context {top level, function, method, method inside blocks, init with super, closure of a method} x 11 inner declarations (helper templates / function literals declared, instantiated and called INSIDE the running outer call, parameters named like outer variables, this/super as parameters, recursion) with marks of the OUTER this/super/params/locals afterwards; random programs mixing all of it (2500 quick, 120000 thorough). "
           "Compared: outcome (value or error TYPE) of the program and of every probe, canonical dump of the global scope, ordered "
-          "marker trace. Non-trivial = the trace has at least one entry."),
+          "marker trace; error objects (except ... as e) in a canonical form on both sides (type, data, detail of raise; message / position / "
+          "source / trace as placeholders). Non-trivial = the trace has at least one entry."),
     exhaustive="scope shape x assignment form x definition place; parameters x argument counts x context; container x key x access form",
     trusted_base=[
         "the tree evaluated by the model is the one the real parser built (serialised by the harness); parser and lexer are not part of C05",
-        "theorems are about the scope / heap / frame functions of Model/Eval.lean and Model/EvalObjects.lean that the executable evaluator "
-        "calls; that the evaluator as a whole matches rt_*.go, scope/*.go is established by the differential run",
+        "theorems are about functions of Model/Eval.lean that the evaluator runs (setValue, getValue, containerWalk, containerGet, scopeFor, "
+        "buildFrame, appendVals, copyProps, addSuperClasses, newB ...; runFunction_uses_buildFrame / runBuiltin_uses / addSuperClasses_order "
+        "are the unfolding equations); fieldKey / listIdx / stepP of the lemma files are tied to them by setValue_path, listIndex_run, "
+        "containerWalk_step, containerGet_step; that the evaluator as a whole matches rt_*.go, scope/*.go is established by the differential run",
+        "slice capacity growth (growCap / sizeClasses) follows go1.23 runtime.growslice: add/del aliasing is observable, so the compared "
+        "observable depends on the toolchain",
     ],
     assumptions=["programs with unbounded recursion are outside (fuel), as the property allows",
+                 "the correspondence compares with the code AS IT IS for add / del: results agree with the list model (builtins_refine_spec), but "
+                 "Go slice aliasing makes add(l, v[, i]) / del(l, i) change OTHER list values (the argument itself, earlier results) and "
+                 "del(map, number) does not remove a number key — deviations from the property's list / map model, witnessed by "
+                 "add_del_alias_deviation; proposed repair: fixes/C05-add-del-aliasing.patch (unedited suite passes twice); until it is "
+                 "applied or the deviations are listed as known findings they are NOT reported by this check",
                  "programs that stringify non-integral numbers / mixed-key maps or call inside a longer access chain are outside the model (UNSUP, counted)"],
     decode=decode,
 )
@@ -42,26 +53,29 @@ SPEC = dict(
 META = dict(
     technique="Lean 4 theorems about the scope chain, heap and call-frame functions the executable evaluator model calls + differential "
               "correspondence of the whole model with Runtime.Eval on exhaustive and random programs with probes and scope dumps",
-    level_text=("Proof (about functions of Model/Eval.lean that runFunction / runBuiltin call — runFunction_uses_buildFrame, runBuiltin_uses, "
-                "addSuperClasses_order, superLoop_order are the unfolding equations): lookup_nearest, assign_nearest_or_local (+ one scope "
-                "touched, heap untouched), let_local, inner_not_visible_outside; call frames on buildFrame: call_fresh_locals, "
-                "closure_sees_definition_scope, call_does_not_write_enclosing_frames (every outcome), args_missing_default_extra_ignored; "
-                "len_add_del_model and add_insert_concat_model: len, add = Go append and add(l,v,i) = insertion with the aliasing cases (same "
-                "backing array when capacity suffices, new array otherwise), del(list,i), del(map,k), concat (always a new array), argument "
-                "errors; read_after_write (map cell, number and string keys, fix 5e0a7a5), prims_by_value_containers_by_ref, "
-                "read_after_write_paths; objects: new_has_all_template_props (every string key of the template and of every super template "
-                "reachable through the super lists, transitively, is a key of the object; own non-function property wins; later super over "
-                "earlier by copy order), method_this (frame of a bound function: nearest `this` = the frame's own, value = the object cell), "
-                "init_once_with_args + init_once_with_args_and_supers + init_reads_super (init of the finished object runs exactly once, last, "
-                "with the constructor arguments; its super = the list of collected super inits in order), addSuperClasses_no_fuel (cyclic "
-                "super graph: fuel)."),
-    level_note=("Hypotheses: number-key theorems assume == is reflexive on the float of the index (not NaN; Lean's Float is opaque); object "
-                "key theorems are about string keys, templates are cells other than the fresh object and slot 0 of the list store is the nil "
-                "slice; frame theorems assume parameter names without access path, no parameter named this/super for the this/super value "
-                "theorems, and that evaluating a default leaves the scope in question and the unreachable new frame alone. Slice theorems "
-                "assume the slice invariant len <= capacity. A template that reaches itself through `super` exhausts the model's fuel (HANG); "
-                "the Go code recurses without bound there (stack overflow, see C06) — such cyclic containers are kept out of the generator. "
-                "Programs whose result shows an error object / non-integral float text are outside the model (counted as not compared)."),
+    level_text=("Proof (about functions of Model/Eval.lean that runFunction / runBuiltin call; unfolding equations runFunction_uses_buildFrame, "
+                "runBuiltin_uses, addSuperClasses_order, superLoop_order): lookup_nearest, assign_nearest_or_local (+ one scope touched, heap "
+                "untouched), let_local, inner_not_visible_outside; call frames on buildFrame: call_fresh_locals, closure_sees_definition_scope, "
+                "call_does_not_write_enclosing_frames (every outcome; hypothesis = the defaults of THIS parameter list preserve the frame "
+                "invariant; call_frames_noDefaults needs none; both instantiated on the real eval in examples), "
+                "args_missing_default_extra_ignored; read_after_write_path on setValue / getValue themselves for any nesting (containerWalk "
+                "and containerGet reach the same cell, fieldKey = the key setValue writes, negative list indices) and "
+                "prims_by_value_containers_by_ref (a write through one name is read through any alias reaching the same cell); "
+                "len_add_del_model, add_insert_concat_model (Go slices incl. aliasing), builtins_refine_spec / append_refines_when_unaliased "
+                "against an independent list Spec, add_del_alias_deviation (witnesses of the deviations); objects: "
+                "new_has_all_template_props (string keys of all templates reachable through super lists, cyclic templates cut as f42b440 does; "
+                "own non-function property wins), method_this, init_once_with_args, init_once_with_args_and_supers, init_reads_super, "
+                "addSuperClasses_cycle."),
+    level_note=("Not proved: that block scopes (newChild) hang under the current scope and are reused by name, and the invariant "
+                "parent index < own index that would discharge `t not on the chain` in inner_not_visible_outside (wiring tested only); that "
+                "eval never touches an unreferenced root scope (so the default-evaluation hypothesis of the frame theorems is discharged per "
+                "example, not in general); inherited VALUES and later-super-wins only per copy step; bindParamNode propagates a setValue error "
+                "where Go drops it (unreachable for parser-made names). Hypotheses: Float == reflexive on integer keys (Lean's Float is "
+                "opaque); object theorems are about string keys, templates other than the fresh object, list slot 0 = nil slice; no "
+                "parameter named this/super for the this/super value theorems; slices with len <= capacity; paths that do not pass through "
+                "the cell they write. add/del aliasing and del(map, number) deviate from the list/map model (see assumptions, "
+                "fixes/C05-add-del-aliasing.patch). Outside the model (not compared): mutex blocks, f()() / o.m().k chains after a call, "
+                "stringified mixed-key maps / functions / non-integral floats."),
 )
 
 
